@@ -13,16 +13,24 @@ G == JsonDeserialize(IOEnv.GRAMMARS)
 AllG == [i \in 1..(Len(G.grammars) + Len(G.recursive)) |->
            IF i <= Len(G.grammars) THEN G.grammars[i] ELSE G.recursive[i - Len(G.grammars)]]
 
-VARIABLES gi, ski, s
-vars == <<gi, ski, s>>
+VARIABLES gi, ski, s, ph
+vars == <<gi, ski, s, ph>>
 
 Inputs == UNION {[1..k -> Sym] : k \in 0..MaxLen}
 
+(* one initial state per grammar; its successors are all (skipper, input) pairs - so that TLC's
+   workers share the evaluation of the invariants *)
 Init ==
   /\ gi \in 1..Len(AllG)
-  /\ ski \in 1..Len(AllG[gi].sks)
-  /\ s \in Inputs
-Next == FALSE /\ UNCHANGED vars
+  /\ ski = 1
+  /\ s = <<>>
+  /\ ph = 0
+Next ==
+  /\ ph = 0
+  /\ ph' = 1
+  /\ gi' = gi
+  /\ ski' \in 1..Len(AllG[gi].sks)
+  /\ s' \in Inputs
 Spec == Init /\ [][Next]_vars
 
 Gr == AllG[gi]
@@ -66,11 +74,12 @@ SubLaws(h, p) ==
   \* fatal: every failure is fatal, successes are untouched
   /\ h.k = "fatal" => (~r.ok => r.fatal)
 
-Laws == \A h \in Subs : \A p \in 0..Len(s) : SubLaws(h, p)
+Laws == ph = 1 => \A h \in Subs : \A p \in 0..Len(s) : SubLaws(h, p)
 
 (* the string entry points succeed iff the parser succeeds after the initial skipper run and
    consumes the whole input *)
 EntryLaw ==
+  ph = 1 =>
   LET k == Skip(Sk, s, 0)
       e == Run(Gr.g, Sk, s, Gr.ps)
   IN e.ok = (k.ok /\ LET r == Parse(Gr.g, Sk, s, k.pos, Gr.ps) IN r.ok /\ r.pos = Len(s))
@@ -79,6 +88,7 @@ EntryLaw ==
    the library's static requirements hold, no repetition of a nullable parser, repetitions only
    under skippers that cannot fail *)
 FamilyOK ==
+  ph = 1 =>
   /\ \A h \in Subs : h.ty = TyOf(h) /\ ArgsOK(h)
   /\ NoNullableRep(Gr.g) /\ \A n \in DOMAIN Gr.ps : NoNullableRep(Gr.ps[n])
   /\ Gr.sks[ski] \in DOMAIN G.skippers
